@@ -56,6 +56,7 @@ fn main() {
             std::process::exit(l4v::dispatch(&prop, &tier, seed, only));
         }
         "child" => std::process::exit(l4v::child(&args[2..])),
+        "miri" => std::process::exit(l4v::miri_main(&args[2..])),
         _ => usage(),
     }
 }
